@@ -1,11 +1,12 @@
 """Implementation side of C16: real RouteMap(...) construction and .trim()."""
 import json
 import sys
-from harness.impl import emit
+from harness.impl import emit, protect_stdout
 from floogen.model.routing import RouteMap, RouteMapRule, AddrRange, SimpleId
 
 
 def main():
+    protect_stdout()
     for line in sys.stdin:
         rules = json.loads(line)
         try:
